@@ -8,6 +8,9 @@
 //!                                                pre/post/ps: 1 = that callback parks at a closed gate
 //!   send <a> blk|err|panic      stop <a>   kill <a>   drain <a>   abort <a>
 //!   link <c> <p>   unlink <c> <p>   open <a> pre|post|h|ps   flush   settle
+//!   dropstart <a>   the driver itself drops the start future of a (spawn / spawn_linked still inside
+//!                   pre_start): the guard's cleanup -- terminate() of a's subtree -- runs inline, so the
+//!                   actors it killed have NOT yet been polled when the next operations are issued
 //! stdout, one Coq-syntax term per scenario:
 //!   [(snapshot, [spawn results]) after each settle]   snapshot = [(rank, [children], sup); ...]
 use std::sync::{Arc, Mutex};
@@ -43,6 +46,15 @@ struct Slot {
     res: Mutex<Option<bool>>,
     starter: Mutex<Option<AbortHandle>>,
     actor_task: Mutex<Option<JoinHandle<()>>>,
+    start_fut: Mutex<Option<std::pin::Pin<Box<dyn std::future::Future<Output = ()> + Send>>>>,
+}
+
+struct DropStart(Arc<Slot>);
+impl Drop for DropStart {
+    fn drop(&mut self) {
+        let f = self.0.start_fut.lock().unwrap().take();
+        drop(f);
+    }
 }
 
 enum TMsg {
@@ -171,6 +183,7 @@ async fn run_scenario(line: &str) -> String {
                                 res: Mutex::new(Some(false)),
                                 starter: Mutex::new(None),
                                 actor_task: Mutex::new(None),
+                                start_fut: Mutex::new(None),
                             }));
                             continue;
                         }
@@ -187,12 +200,14 @@ async fn run_scenario(line: &str) -> String {
                     res: Mutex::new(None),
                     starter: Mutex::new(None),
                     actor_task: Mutex::new(None),
+                    start_fut: Mutex::new(None),
                 });
                 slots[a] = Some(slot.clone());
                 match kind {
                     0 | 1 => {
                         let s2 = slot.clone();
-                        let h = tokio::spawn(async move {
+                        // the start future lives in the slot so that the driver can drop it itself
+                        let fut: std::pin::Pin<Box<dyn std::future::Future<Output = ()> + Send>> = Box::pin(async move {
                             let r = match sup {
                                 Some(p) => Actor::spawn_linked(None, H, s2.clone(), p).await,
                                 None => Actor::spawn(None, H, s2.clone()).await,
@@ -205,6 +220,22 @@ async fn run_scenario(line: &str) -> String {
                                 Err(_) => *s2.res.lock().unwrap() = Some(false),
                             }
                         });
+                        *slot.start_fut.lock().unwrap() = Some(fut);
+                        // cancelling the polling task (op `abort`) drops the start future with it
+                        let s3 = DropStart(slot.clone());
+                        let h = tokio::spawn(std::future::poll_fn(move |cx| {
+                            let mut g = s3.0.start_fut.lock().unwrap();
+                            match g.as_mut() {
+                                None => std::task::Poll::Ready(()),
+                                Some(f) => match f.as_mut().poll(cx) {
+                                    std::task::Poll::Ready(()) => {
+                                        *g = None;
+                                        std::task::Poll::Ready(())
+                                    }
+                                    std::task::Poll::Pending => std::task::Poll::Pending,
+                                },
+                            }
+                        }));
                         *slot.starter.lock().unwrap() = Some(h.abort_handle());
                     }
                     _ => {
@@ -267,6 +298,12 @@ async fn run_scenario(line: &str) -> String {
                     } else if let Some(h) = s.starter.lock().unwrap().as_ref() {
                         h.abort();
                     }
+                }
+            }
+            "dropstart" => {
+                if let Some(sl) = &slots[idx(t[1])] {
+                    let f = sl.start_fut.lock().unwrap().take();
+                    drop(f);
                 }
             }
             "link" => {
